@@ -46,6 +46,7 @@ def Adm (g : RxG) (k : Nat) : Prop := k ≤ g.pending.length ∧ g.fifo.length +
 
 /-- the host reads `n` bytes from the FIFO -/
 def take (g : RxG) (n : Nat) : RxG :=
+  if n = 0 then g else
   if n ≤ g.fifo.length then
     let g1 := { g with fifo := g.fifo.drop n, taken := g.taken ++ g.fifo.take n }
     if g1.fifo = [] then { g1 with ready := false, crcFlag := false } else g1
@@ -60,9 +61,9 @@ def RxFlagsOk (v : UInt8) (g : RxG) : Prop :=
   (v &&& 0x04 ≠ 0 ↔ g.ready = true) ∧ (v &&& 0x02 ≠ 0 ↔ g.crcFlag = true) ∧ v &&& 0x08 = 0 ∧ v &&& 0x10 = 0 ∧
   (v &&& 0x20 ≠ 0 ↔ g.fifo.length > 31) ∧ (v &&& 0x40 ≠ 0 ↔ g.fifo = []) ∧ v &&& 0x80 = 0
 
-def rxRLive (g : RxG) (q : Req) (a : Ans) (g' : RxG) : Prop :=
-  ∃ k fin, g.Adm k ∧
-  let g1 := g.arrive k fin
+/-- the answer to request `q` and the ghost state after it, when the demodulator has brought the
+    ghost state from `g` to `g1` before the transfer -/
+def rxAnswer (g g1 : RxG) (q : Req) (a : Ans) (g' : RxG) : Prop :=
   match q, a with
   | .rread reg, .u8 (.ok v) =>
     if reg = 0x3f then g' = { g1 with irq := v } ∧ RxFlagsOk v g1
@@ -81,6 +82,9 @@ def rxRLive (g : RxG) (q : Req) (a : Ans) (g' : RxG) : Prop :=
     if reg = 0x00 then g' = g1.take n ∧ d.length = n ∧ (n ≤ g1.fifo.length → d = g1.fifo.take n)
     else g'.poison = true
   | _, _ => g'.poison = true
+
+def rxRLive (g : RxG) (q : Req) (a : Ans) (g' : RxG) : Prop :=
+  ∃ k fin, g.Adm k ∧ rxAnswer g (g.arrive k fin) q a g'
 
 /-- the transfer did not fail -/
 def Ans.noErr : Ans → Prop
